@@ -228,7 +228,7 @@ func (e *Exec) spawn(fr *frame, instr *ssa.Go, fn Value, args []Value) {
 	e.schedPoint(fr.g, "go")
 }
 
-func (c *RunConfig) maxGoroutines() int { return 64 }
+func (c *RunConfig) maxGoroutines() int { return 400 }
 
 // enabled returns the goroutines that could run now.
 func (s *Sched) enabled(except *Goroutine) []*Goroutine {
